@@ -234,12 +234,17 @@ class RoundTrip:
 def write_track_abs(ctx, ai, events):
     wt = ctx.fn(ctx.p.func(MF, 'write_track'))
 
+    files = []
+
     def thunk():
         out = AFile(name='out')
+        files.append(out)
         msgs = [e.build(ai, ctx) for e in events]
         ai.call_function(wt, [out, AList(msgs, 'MidiTrack')], {})
         return out
     outs = ai.explore(thunk, limit=32)
+    for o, f in zip(outs, files):
+        o.file = f          # also for runs that raised: what had reached the file by then
     for q in ai.inlined:
         ctx.functions.add(q)
     return wt, outs
@@ -294,6 +299,10 @@ def check_scenario(ctx, ai, name, events, rules, expect_write_error=None, confor
         ok = bool(outs) and all(o.kind == 'raise' and o.exc == expect_write_error for o in outs)
         ctx.require(ok, rules['write'], f'{inst}.rejected', w,
                     f'saving {events!r} must raise {expect_write_error}; outcomes: {outs}', construct=cons + '::rejected')
+        partial = [o for o in outs if o.kind == 'raise' and getattr(o, 'file', None) is not None and o.file.written]
+        ctx.require(not partial, rules['write'], f'{inst}.nothing-written', w,
+                    f'the rejected track had already reached the file: {describe(partial[0].file.written) if partial else ""} '
+                    '(a rejected message leaves a partial track behind)', construct=f'{wt.qname}::writes-before-validation')
         return None
     if len(outs) != 1 or outs[0].kind != 'return':
         why = f'writing {events!r} does not complete on exactly one path: {outs}'
